@@ -1,5 +1,5 @@
 """C22 `check --fix` edits are safe."""
-REG_DRAFT = dict(
+REG = dict(
     engine='E1-enum',
     technique='bounded-exhaustive enumeration of (fixable lint trigger x placement) programs and of trigger pairs; `check --fix` is applied by the real code (iterated to a fixed point), each result is parsed and run on the real interpreter and compared with the original run',
     text='Triggers for every lint that carries an autofix (unused literal of 5 shapes, unused let with pure / effectful / literal value, unused for variable / closure parameter / match payload / destructured name / function parameter, unused import, unused type parameter, unnecessary let, unnecessary return, repeated boolean operand in 6 shapes, list-length comparison in 4 shapes, unreachable match arm, missing match cases, and the type-checker fixes `+`/`+.`/`^` and method-name / missing-call suggestions in dead code) x placements (own line, same line before / after other code, last expression of a function / if branch / loop body, nested two deep, one-line nested, inside a call argument list (closure), next to comments, twice on one line, inside a closure, inside a match arm, at top level, in a test); every ordered pair of triggers on adjacent lines and on one line (thorough: also inside a closure, separated by a comment line, on one line inside a nested block, and pairs involving item-level triggers). Oracle: every round of --fix yields a program that parses; if the original ran without error every round has the same stdout, function result and test verdicts; a fixed point is reached in <=5 rounds; violations are re-run through `garden check --fix --stdout`.',
@@ -349,7 +349,9 @@ def run(ctx):
         else:
             d["cli_stdout"] = out[-2000:]
             raise Machinery(f"adapter drift: `garden check --fix --stdout` differs from the fix op for {sig}")
-    dead = sorted(t for t, n in fired.items() if n == 0)
+    # a literal with effectful elements may be left without an autofix (the safe answer): it is not required to fire
+    optional = {t["name"] for t in ts if "/effectful-element" in t["lint"]}
+    dead = sorted(t for t, n in fired.items() if n == 0 and t not in optional)
     if dead and stride == 1:
         raise Machinery(f"vacuous: triggers that never produced a fix: {dead}")
     ctx.add(states=len(cases), transitions=n_exec, nontrivial=sum(1 for c in cases if c["rounds"][0]["n_fixes"] > 0))
